@@ -887,6 +887,23 @@ class VmapBatchHandler:
         vector_args = tuple(vector_args[1:])
         batch_axes = tuple(batch_axes[1:])
 
+        # Recover the sampler's own (args, kwargs) from the flat operands: the
+        # leading operands are constants hoisted while staging the sampler (the
+        # sampler still closes over them), the rest unflattens with `in_tree` -
+        # keyword parameters must stay keyword parameters (tfd.Bernoulli(probs=p)
+        # is not tfd.Bernoulli(p), whose first positional parameter is logits).
+        num_consts = params.get("num_consts", 0)
+        vector_args, batch_axes = vector_args[num_consts:], batch_axes[num_consts:]
+        arg_tree = jtu.tree_unflatten(params["in_tree"], vector_args)
+        axes_tree = jtu.tree_unflatten(params["in_tree"], batch_axes)
+        if params.get("yes_kwargs", False):
+            (args, kwargs), (arg_axes, kwarg_axes) = arg_tree, axes_tree
+        else:
+            (args, kwargs), (arg_axes, kwarg_axes) = (arg_tree, {}), (axes_tree, {})
+        # positional parameters are handed on leaf by leaf (as before)
+        n_positional = len(jtu.tree_leaves(args))
+        args, arg_axes = vector_args[:n_positional], batch_axes[:n_positional]
+
         # Compute new sample shape
         n = static_dim_length(batch_axes, vector_args)
         if n is not None:
@@ -897,14 +914,14 @@ class VmapBatchHandler:
             # (one independent key per lane); the lanes come out along axis 0.
             base_sampler = self.config.keyful_sampler
 
-            def lanewise_sampler(key, *args, sample_shape=(), **kwargs):
+            def lanewise_sampler(key, *a, sample_shape=(), **kw):
                 keys = jrand.split(key, n)
                 return jax.vmap(
-                    lambda k, *a: base_sampler(
-                        k, *a, sample_shape=sample_shape, **kwargs
+                    lambda k, a_, kw_: base_sampler(
+                        k, *a_, sample_shape=sample_shape, **kw_
                     ),
-                    in_axes=(0, *batch_axes),
-                )(keys, *args)
+                    in_axes=(0, tuple(arg_axes), dict(kwarg_axes)),
+                )(keys, tuple(a), dict(kw))
 
             new_config = SamplerConfig(
                 keyful_sampler=lanewise_sampler,
@@ -914,7 +931,7 @@ class VmapBatchHandler:
                 primitive=self.config.primitive,
                 primitive_params=dict(self.config.primitive_params),
             )
-            result = create_sample_primitive(new_config)(*vector_args)
+            result = create_sample_primitive(new_config)(*args, **kwargs)
             return (result,), (0,)
 
         outer_batch_dim = self._compute_outer_batch_dim(n, axis_size)
@@ -922,7 +939,7 @@ class VmapBatchHandler:
 
         # Create new sampler with updated sample shape
         new_config = self.config.with_sample_shape(new_sample_shape)
-        result = create_sample_primitive(new_config)(*vector_args)
+        result = create_sample_primitive(new_config)(*args, **kwargs)
 
         # Return with appropriate output axes
         out_axes = (0 if n or axis_size else None,)
